@@ -101,14 +101,28 @@ def ref_string(rnd, sc, src, target_part, idname, fresh_prefix=True):
     return p + ":" + idname
 
 
+def consistent(sc):
+    """no two identity statements of the loaded modules (with their included submodules) get the same key"""
+    keys = [sc.key(p, n) for p in sc.visible_parts() for n, _ in p.idents]
+    return len(keys) == len(set(keys))
+
+
 def gen_schema(rnd):
+    while True:
+        sc = gen_schema1(rnd)
+        if consistent(sc):
+            return sc
+
+
+def gen_schema1(rnd):
     sc = Schema()
     nmod = rnd.choice([1, 1, 2, 2, 2, 3])
     nsub = rnd.choice([0, 0, 1, 1, 2, 2, 3])
     names = rnd.sample(NAMES, nmod)
     for n in names:
         sc.mods.append(Mod(n, False, rnd.choice(PREFIXES)))
-    subnames = rnd.sample(NAMES, nsub) if rnd.random() < 0.15 else rnd.sample([n for n in NAMES if n not in names], nsub)
+    # (a submodule named like a module trips ToEntry's include-cycle test, which goes by name: not an identity matter)
+    subnames = rnd.sample([n for n in NAMES if n not in names], nsub)
     modules = list(sc.mods)
     subs = []
     for n in subnames:
@@ -249,7 +263,7 @@ def gen_schema(rnd):
                 # a submodule included by somebody else as well (possibly by a module it does not belong to)
                 rnd.choice(modules).includes.append(rnd.choice(subs).name)
             else:
-                part.includes.append("ghostsub")
+                rnd.choice(sc.visible_parts()).includes.append("ghostsub")
     return sc
 
 
